@@ -55,6 +55,11 @@ kht = N('scxml', 0, [N('state', 1, [N('hd', 2, trans=[T(102, None, None, [4])]),
                                     N('state', 3, [N('state', 4, trans=[T(101, b'e', None, [2])]), N('state', 5)],
                                       onentry=[[('raise', 110, b'n')]], onexit=[[('raise', 111, b'x')]])])])
 
+# K2: region b has two enabled transitions; the first loses the conflict with region a's, the engine goes on to the second
+k2 = N('scxml', 0, [N('parallel', 1, [N('state', 2, trans=[T(101, b'e', None, [4])]),
+                                      N('state', 3, trans=[T(102, b'e', None, [4]), T(103, b'e', None, None, False, [('raise', 113, b'x')])])]),
+                    N('state', 4)])
+
 CORPUS = [
     ('d1-exit-interval', d1, [b'go', b'e'], 'null'),
     ('d2-targetless', d2, [b'e'], 'null'),
@@ -65,6 +70,7 @@ CORPUS = [
     ('d4-parallel-regions', d4, [b'e'], 'null'),
     ('d3-sticky-bits', d3, [b'ee', b'back', b'ee', b'back', b'gg'], 'null'),
     ('fd5-parallel-done', fd5, [], 'null'),
+    ('k2-same-source', k2, [b'e'], 'null'),
     ('kho-history-overlap', kho, [b'e'], 'null'),
     ('kht-history-target-domain', kht, [b'e'], 'null'),
 ]
